@@ -208,7 +208,9 @@ def run_groups(groups, tier, pid):
                 ob["verdict"] = "discharged"
             elif re.search(r"test \S*%s \.\.\. FAILED" % re.escape(h["name"]), out):
                 ob["verdict"] = "failed"
-                msg = re.search(r"panicked at [^\n]*\n([^\n]*)", out)
+                # the enumeration's own assertion (raised in the harness module) rather than a secondary
+                # panic of some worker thread of the code under test
+                msg = re.search(r"panicked at /verif/units/kani/[^\n]*\n([^\n]*)", out) or re.search(r"panicked at [^\n]*\n([^\n]*)", out)
                 r["failures"].append({"item": h["name"], "file": spec["module_file"], "message": "native enumeration failed",
                                       "sig": "native enumeration %s: %s" % (h["name"], (msg.group(1) if msg else "test failed")[:400]),
                                       "rendered": out[-3000:], "counterexample": (msg.group(1) if msg else None), "replayed": True,
